@@ -295,10 +295,11 @@ func dependsOn(v ssa.Value, target func(ssa.Value) bool, seen map[ssa.Value]bool
 }
 
 func runC11(c *core.Ctx) core.Meta {
-	c.Load(driverPkg, cpPkg, "amd/emu", "amd/protocol", "amd/samples/runner/timingconfig")
+	c.Load(driverPkg, cpPkg, "amd/emu", "amd/protocol", "amd/samples/runner/timingconfig", r9nanoPkg, mi300aPkg)
 	c.BuildSSA()
 	prov := core.NewProv(c)
 	pd := NewPkgInfo(c, driverPkg)
+	checkLocalRangeOfGPU(c, "R11.15", NewPkgInfo(c, tconfigPkg), NewPkgInfo(c, r9nanoPkg), NewPkgInfo(c, mi300aPkg))
 	pc := NewPkgInfo(c, cpPkg)
 	pe := NewPkgInfo(c, "amd/emu")
 
